@@ -8,8 +8,10 @@ Case line:  `<BUF> <hex input|-> <schedule|-> ; <op> ; <op> ; …`
   is left are skipped.
 * ops: `r:<atom>`, `t:<atom>,<atom>…` (2..8), `v:<n>:<atom>[,<atom>…]`, `line`, `lines`, `eof`;
   atoms `i8 … usize`, `str`, `chr`.
-Answer: `M <results> | V <results> | S <spec results or any>`; the model runs on the event list with
-the given BUF, the spec on the plain input bytes.
+Answer: `M <all model results> | V <model results of the in-domain prefix>[ ~] | S <spec results of that prefix>[ ~]`;
+the model runs on the event list with the given BUF, the spec on the plain input bytes. The in-domain prefix
+(`domPrefix`) ends at the first operation that reads an invalid / out-of-range integer token or a token when none
+is left; ` ~` marks that the script goes on outside the property's domain.
 -/
 open Rlib Rlib.Reader
 
@@ -116,10 +118,13 @@ def handle (line : String) : String :=
         if BUF = 0 then invalid else
         let src := mkEvents sched input #[]
         let fuel := input.length + 1
-        let m := showTrace (runScript fuel script (init BUF src))
+        let model := runScript fuel script (init BUF src)
         let spec := specScript script input
-        let s := if spec.contains .undef then "any" else showTrace spec
-        answer m s
+        -- the property constrains the in-domain prefix of the script (valid tokens, no read past the end);
+        -- `~` marks that later operations are outside it (their raw results are still compared: `M`)
+        let n := domPrefix script input
+        let mark := if n < script.length then " ~" else ""
+        answer3 (showTrace model) (showTrace (model.take n) ++ mark) (showTrace (spec.take n) ++ mark)
       | _, _, _, _ => invalid
     | _ => invalid
 
